@@ -28,6 +28,8 @@ POOL = {
     "longkw": G % "longkw" + 'ID = /[a-z_]+/;\nstart = {"function" | "fun" | "func" | ID | "{" | "}"};\n',
     "ops": G % "ops" + 'start = {"+" | "-" | "*" | "/" | "%" | "&&" | "||" | "!" | "!=" | "?" | ":" };\n',
     "dollar": G % "dollar" + 'VAR = /\\$[a-z]+/;\nAT = "@";\nstart = {VAR | AT | "$"};\n',
+    "nullable": G % "nullable" + 'NUM = /[0-9]*/;\nID = /[a-z]+/;\nstart = {NUM | ID | "+"};\n',
+    "nullable2": G % "nullabletwo" + 'OPT = /a?/;\nstart = {OPT "b"};\n',
     "mixedws": G % "mixedws" + 'WS = /[ \\x09]+/;\nNL = /\\x0A/;\nWD = /[a-z]+/;\nstart = {WD | WS | NL};\n',
 }
 
